@@ -37,6 +37,9 @@ Proof.
   - auto.
 Qed.
 
+Definition timer_op (o : op) : Prop :=
+  match o with OFailure _ _ | OAdvance _ | ONext => True | _ => False end.
+
 (* what a step adds to the log *)
 Definition step_site (s : state) (o : op) (r : req) : Prop :=
   site r /\ ctxq s r /\
@@ -44,8 +47,8 @@ Definition step_site (s : state) (o : op) (r : req) : Prop :=
   | SrcStart => o = OSendStart \/ o = OStart false
   | SrcStop => o = OSendStop \/ o = OStop false
   | SrcCompleted => o = OSendCompleted
-  | SrcUpdate => same3 (r_fl r) (fl s) /\ f_active (fl s) = true
-  | SrcTimer => same3 (r_fl r) (fl s) /\ f_active (fl s) = true /\
+  | SrcUpdate => (o = OSendUpdate \/ o = OManual) /\ same3 (r_fl r) (fl s) /\ f_active (fl s) = true
+  | SrcTimer => timer_op o /\ same3 (r_fl r) (fl s) /\ f_active (fl s) = true /\
                 f_promisc (r_fl r) = f_promisc (fl s) /\ f_requesting (r_fl r) = f_requesting (fl s) /\
                 (normal_mode (r_fl r) -> map t_group (r_trs r) = map t_group (trs s))
   end.
@@ -73,14 +76,14 @@ Proof.
 Qed.
 
 (* the requests of a do_timeout run from state [x] inside a step from [s] *)
-Lemma timer_step_site s o x :
+Lemma timer_step_site s o x : timer_op o ->
   same3 (fl x) (fl s) -> f_active (fl x) = f_active (fl s) -> f_promisc (fl x) = f_promisc (fl s) ->
   f_requesting (fl x) = f_requesting (fl s) -> map t_group (trs x) = map t_group (trs s) ->
   s_up x = s_up s -> s_comp x = s_comp s -> s_left x = s_left s ->
   forall r, (site r /\ r_src r = SrcTimer /\ ctxq x r /\ r_fl r = fl x /\ f_active (fl x) = true /\
              (normal_mode (fl x) -> r_trs r = trs x)) -> step_site s o r.
 Proof.
-  intros h3 ha hp hr hg hu hc hl r (hs & hsrc & hctx & hfl & hact & hn).
+  intros hop h3 ha hp hr hg hu hc hl r (hs & hsrc & hctx & hfl & hact & hn).
   unfold step_site. split; [assumption |]. split.
   - unfold ctxq in *. rewrite <- hu, <- hc, <- hl. assumption.
   - rewrite hsrc, hfl. ssplit; auto; try congruence.
@@ -172,21 +175,21 @@ Proof.
   - eapply emits_weaken; [| exact e]. intros r (h1&h2&h3). unfold step_site. rewrite h2. auto.
 Qed.
 
-Lemma update_ok o : step s o = send_update_event s -> o <> OSendStop -> step_ok s o.
+Lemma update_ok o : step s o = send_update_event s -> (o = OSendUpdate \/ o = OManual) -> step_ok s o.
 Proof.
-  intros E _. destruct (send_update_event_spec s Hm) as (a&(b1&b2&b3)&c&k&e). unfold step_ok. rewrite E. ssplit; auto.
+  intros E Ho. destruct (send_update_event_spec s Hm) as (a&(b1&b2&b3)&c&k&e). unfold step_ok. rewrite E. ssplit; auto.
   - intros _ H. unfold stop_inv in *. rewrite b3, c. assumption.
   - apply trs_ok_keeps. assumption.
   - eapply emits_weaken; [| exact e]. intros r (h1&h2&h3&h4&h5). unfold step_site. rewrite h2. auto.
 Qed.
 
 Lemma case_send_update : step_ok s OSendUpdate.
-Proof. apply update_ok; [reflexivity | discriminate]. Qed.
+Proof. apply update_ok; [reflexivity | left; reflexivity]. Qed.
 
 Lemma case_manual : step_ok s OManual.
 Proof.
   destruct (tmo s) eqn:Ht.
-  - apply update_ok; [simpl; unfold manual_request; rewrite Ht; reflexivity | discriminate].
+  - apply update_ok; [simpl; unfold manual_request; rewrite Ht; reflexivity | right; reflexivity].
   - eapply quiet; [simpl; unfold manual_request; rewrite Ht; reflexivity | reflexivity | assumption | auto | apply trs_ok_same; reflexivity].
 Qed.
 
@@ -342,13 +345,13 @@ Proof.
   assert (G4 : emits (step_site s (OFailure id ivs)) s (do_timeout x)).
   { apply emits_trans with (s2 := x); [apply emits_same; reflexivity |].
     eapply emits_weaken; [| exact he].
-    apply timer_step_site; subst x; simpl; auto. unfold same3; auto. }
+    apply timer_step_site; [exact I | ..]; subst x; simpl; auto. unfold same3; auto. }
   ssplit; assumption.
 Qed.
 
-Lemma perform_ok o n : step s o = perform (set_now s n) -> o <> OSendStop -> step_ok s o.
+Lemma perform_ok o n : step s o = perform (set_now s n) -> timer_op o -> step_ok s o.
 Proof.
-  intros E _. unfold step_ok. rewrite E. unfold perform. simpl.
+  intros E Ho. unfold step_ok. rewrite E. unfold perform. simpl.
   destruct (tmo s) as [t |].
   2: { ssplit; auto; [apply trs_ok_same; reflexivity | apply emits_same; reflexivity]. }
   destruct (t <=? n).
@@ -360,17 +363,17 @@ Proof.
   assert (G4 : emits (step_site s o) s (do_timeout (set_now s n))).
   { apply emits_trans with (s2 := set_now s n); [apply emits_same; reflexivity |].
     eapply emits_weaken; [| exact he].
-    apply timer_step_site; simpl; auto. unfold same3; auto. }
+    apply timer_step_site; [exact Ho | ..]; simpl; auto. unfold same3; auto. }
   ssplit; auto.
 Qed.
 
 Lemma case_advance dt : step_ok s (OAdvance dt).
-Proof. eapply perform_ok; [reflexivity | discriminate]. Qed.
+Proof. eapply perform_ok; [reflexivity | exact I]. Qed.
 
 Lemma case_next : step_ok s ONext.
 Proof.
   destruct (tmo s) eqn:Ht.
-  - eapply perform_ok; [simpl; rewrite Ht; reflexivity | discriminate].
+  - eapply perform_ok; [simpl; rewrite Ht; reflexivity | exact I].
   - eapply quiet; [simpl; rewrite Ht; reflexivity | reflexivity | assumption | auto | apply trs_ok_same; reflexivity].
 Qed.
 
